@@ -1,7 +1,7 @@
 """C11 Order integrity: immutable terms, shrinking remainders, no interference (R-write, R-table monotone updates, R-inv I1/I3/I4, namespaces)."""
 from engine import *
 from money import *
-from book import remove_iff_zero, record_base
+from book import remove_iff_zero, record_base, persistence_identity
 PROP = 'C11'
 CB_PATH = (('f', 'class'), ('v', 'Convertible', 'status'), ('v', 'Ready', 'converted_base'))
 
@@ -112,6 +112,7 @@ def run(eng, tier):
                 if root == 'query': eng.fail(PROP, 'write-key', 'query', 'query writes storage', where=w['site'])
                 if root == 'instantiate': eng.ob(w['ns'] in ('contract_info', 'version_info'), PROP, 'write-key', 'instantiate:' + str(w['ns']), 'instantiate writes %s' % w['ns'], where=w['site'])
                 if root == 'migrate': eng.ob(w['ns'] in ('contract_info', 'version_info', 'bid'), PROP, 'write-key', 'migrate:' + str(w['ns']), 'migrate writes %s' % w['ns'], where=w['site'])
+    persistence_identity(eng, PROP)
     # no unanalysed call may mutate state: every opaque (external, unmodelled) callee receiving `&mut` / DepsMut is on a confirmed list
     # only callees that are handed mutable access to storage (`&mut dyn Storage`, `DepsMut`) matter: local collections are not state
     ALLOWED_OPAQUE_MUT = (lambda name, ty: name.endswith('DepsMut::<\'a, C>::branch'))
